@@ -579,7 +579,7 @@ func isByteType(t types.Type) bool {
 // ---------------------------------------------------------------- E-DECODE-END
 
 func init() {
-	register(&Rule{ID: "E-DECODE-END", Props: []string{"C11", "C12"}, Floor: 1,
+	register(&Rule{ID: "E-DECODE-END", Props: []string{"C11", "C12", "C03"}, Floor: 1,
 		Doc: "a decoded character width is applied at the end of the string it was decoded from: a width cut off the end (s[:len(s)-w]) comes from utf8.DecodeLastRune*, a width skipped at the start (s[w:], s[off+w:], s[:off+w]) from utf8.DecodeRune*; the width of the first character says nothing about the last one",
 		Run: ruleEDecodeEnd})
 }
@@ -596,6 +596,12 @@ func decodeProvenance(v ssa.Value, out map[string]bool, seen map[ssa.Value]bool)
 			if full := calleeFullName(&c.Call); strings.HasPrefix(full, "unicode/utf8.Decode") {
 				out[strings.TrimPrefix(full, "unicode/utf8.")] = true
 			}
+		}
+	case *ssa.Call:
+		// the encoded length of a rune is not the width it was decoded with: an ill-formed byte decodes to U+FFFD with
+		// width 1, and U+FFFD encodes in 3 bytes
+		if full := calleeFullName(&x.Call); full == "unicode/utf8.RuneLen" {
+			out["RuneLen"] = true
 		}
 	case *ssa.Phi:
 		for _, e := range x.Edges {
@@ -664,6 +670,10 @@ func ruleEDecodeEnd(p *Program, r *Reporter) {
 						if last != (u.end == "end") {
 							bad = d
 						}
+					}
+					if prov["RuneLen"] {
+						r.Bad(instrPos(sl), key, "a string is cut by utf8.RuneLen of a character: that is the length the character encodes to, not the width it was decoded with (an ill-formed byte decodes to U+FFFD with width 1, which encodes in 3 bytes), so the cut can land inside or beyond the text")
+						continue
 					}
 					if bad != "" {
 						r.Bad(instrPos(sl), key, fmt.Sprintf("a width obtained from utf8.%s is applied at the %s of the string: the character there can have another width", bad, u.end))
